@@ -488,7 +488,9 @@ Definition load_rules (s : storage) : loadacc :=
 Definition initialize (s : storage) (max_replicas : Z) : (manager + err) * storage :=
   let acc := load_rules s in
   let s1 := fold_left (fun s r => apply_rule_write (rkey r, Some r) s) (la_save acc) s in
-  let s2 := fold_left (fun s k => apply_rule_write (k, None) s) (la_delete acc) s1 in
+  (* a key that was just rewritten with the rule served under it is not deleted (fix of the repair path) *)
+  let s2 := fold_left (fun s k => apply_rule_write (k, None) s)
+                      (filter (fun k => negb (existsb (fun r => pair_eqb k (rkey r)) (la_save acc))) (la_delete acc)) s1 in
   let groups := s_groups s2 in
   let '(rules, s3) :=
     match la_rules acc with
@@ -548,15 +550,20 @@ Inductive res := ROk | RErr (e : err) | RBadOrder.
 Record obs := Obs { o_res : res; o_live : option dump; o_reload : option dump }.
 (* what the driver prints: a dump that is textually equal to the previous live dump (for the live
    manager) / to this step's live dump (for the reloaded manager) is printed as DSame *)
-Inductive dref := DSame | DNone | DVal (d : dump).
+(* DSkip: not observable (the state between two overlapping updates, before the second one runs on):
+   the model's own value stands in for it *)
+Inductive dref := DSame | DNone | DVal (d : dump) | DSkip.
 Record pobs := PObs { p_res : res; p_live : dref; p_reload : dref }.
-Definition deref (same : option dump) (r : dref) : option dump :=
-  match r with DSame => same | DNone => None | DVal d => Some d end.
-Fixpoint expand (prev : option dump) (l : list pobs) : list obs :=
+Definition deref (same skip : option dump) (r : dref) : option dump :=
+  match r with DSame => same | DNone => None | DVal d => Some d | DSkip => skip end.
+Fixpoint expand (prev : option dump) (l : list pobs) (ms : list obs) : list obs :=
   match l with
   | [] => []
-  | p :: rest => let live := deref prev (p_live p) in
-                 Obs (p_res p) live (deref live (p_reload p)) :: expand live rest
+  | p :: rest =>
+      let m := hd_error ms in
+      let live := deref prev (match m with Some x => o_live x | None => None end) (p_live p) in
+      Obs (p_res p) live (deref live (match m with Some x => o_reload x | None => None end) (p_reload p))
+      :: expand live rest (tl ms)
   end.
 
 Definition reload_dump (s : storage) : option dump :=
@@ -589,7 +596,8 @@ Definition step (st : state) (o : op) : state * obs :=
   | OUpdate u f worder => step_update st u f worder
   | ORetry u worder => step_update st u None worder
   | OCorruptRule k v =>
-      let st' := State (st_live st) (Storage (mset pair_cmp k v (s_rules (st_store st))) (s_groups (st_store st))) in
+      let v' := match v with SVRule r => SVRule (set_group r None) | SVGarbage => SVGarbage end in
+      let st' := State (st_live st) (Storage (mset pair_cmp k v' (s_rules (st_store st))) (s_groups (st_store st))) in
       (st', observe ROk st')
   | OCorruptDrop k =>
       let st' := State (st_live st) (Storage (mdel pair_cmp k (s_rules (st_store st))) (s_groups (st_store st))) in
@@ -616,7 +624,8 @@ Definition res_eqb (a b : res) : bool :=
 Definition obs_eqb (a b : obs) : bool :=
   res_eqb (o_res a) (o_res b) && opt_eqb dump_eqb (o_live a) (o_live b) && opt_eqb dump_eqb (o_reload a) (o_reload b).
 
-Definition check_case (c : list op * list pobs) := diff_at obs_eqb 0 (model_obs (fst c)) (expand None (snd c)).
+Definition check_case (c : list op * list pobs) :=
+  let ms := model_obs (fst c) in diff_at obs_eqb 0 ms (expand None (snd c) ms).
 Fixpoint mismatches_from (n : nat) (cs : list (list op * list pobs)) :=
   match cs with
   | [] => []
@@ -762,6 +771,7 @@ Fixpoint monitor_walk (known : list rule) (prev : option dump) (clean retryable 
                        | _ => false
                        end in
       let clean' := match o with
+                    | ORestart _ => ok_res                          (* Initialize re-synchronises storage and served state *)
                     | ORetry _ _ => retryable && ok_res
                     | OUpdate _ (Some _) _ => clean && ok_res     (* acknowledged: must be durable, fault or not *)
                     | _ => clean && is_fault_free o
@@ -789,9 +799,14 @@ Fixpoint monitor_walk (known : list rule) (prev : option dump) (clean retryable 
                             | Some r => dump_diff "C13:retry-does-not-converge-" l r
                             | None => ["C13:restart-fails-after-retried-update"]
                             end else [])
-        | ORestart _, ROk, Some p, Some l =>
-            monitor_index known l ++ (if clean then dump_diff "C13:restart-changed-" p l else [])
-        | ORestart _, ROk, _, Some l => monitor_index known l
+        | ORestart _, ROk, pv, Some l =>
+            monitor_index known l ++
+            (match pv with Some p => if clean then dump_diff "C13:restart-changed-" p l else [] | None => [] end) ++
+            (* whatever was in the storage: after Initialize it holds what is served *)
+            (match o_reload b with
+             | Some r => dump_diff "C13:restart-leaves-storage-different-" l r
+             | None => ["C13:second-restart-fails"]
+             end)
         | ORestart _, RErr _, _, _ => if clean' then ["C13:initialize-fails-on-own-storage"] else []
         | _, _, _, _ => []
         end in
@@ -806,7 +821,7 @@ Fixpoint dedup (l : list string) : list string :=
   end.
 
 Definition monitor (c : list op * list pobs) : list string :=
-  dedup (monitor_walk (flat_map rules_of_op (fst c)) None true false (fst c) (expand None (snd c))).
+  dedup (monitor_walk (flat_map rules_of_op (fst c)) None true false (fst c) (expand None (snd c) (model_obs (fst c)))).
 
 Fixpoint monitor_fails_from (n : nat) (cs : list (list op * list pobs)) : list (nat * string) :=
   match cs with
